@@ -369,6 +369,25 @@ pub fn case_strategy(cfg: &GenCfg) -> impl Strategy<Value = (WorldSpec, Vec<Op>)
             }
             p
         }),
+        // near wipe-out: one lender, one borrower who takes (almost) every token of the bank and then goes bankrupt, so
+        // that the loss eats 99.99..100 % of the deposits: the deposit share value lands in (0, 0.0001) — or the bank is
+        // wiped out when fees push the debt past the deposits. The lender then keeps using the bank.
+        1 => (prop_oneof![10u64..1000, 1000u64..1_000_000], 0u64..3, 100_000_000u64..10_000_000_000, prop::collection::vec(op_strategy(), 0..6)).prop_map(|(d, k, coll, tail)| {
+            let (lender, borrower, b0, b1) = (0u16, 40000u16, 0u16, 32780u16);
+            let mut p = vec![
+                Op::Deposit { u: lender, b: b0, amt: d, rel: 0, up: 0 },
+                Op::Deposit { u: borrower, b: b1, amt: coll, rel: 0, up: 0 },
+                Op::Borrow { u: borrower, b: b0, amt: k, rel: 2 },
+                Op::Bankrupt { u: borrower, b: b0, signer: 0, crash: true },
+                Op::Withdraw { u: lender, b: b0, amt: 1, rel: 0, all: false },
+                Op::Withdraw { u: lender, b: b0, amt: 2, rel: 0, all: false },
+                Op::Deposit { u: lender, b: b0, amt: 7, rel: 0, up: 0 },
+                Op::Withdraw { u: lender, b: b0, amt: 3, rel: 0, all: false },
+                Op::Withdraw { u: lender, b: b0, amt: 0, rel: 0, all: true },
+            ];
+            p.extend(tail);
+            p
+        }),
         // inflation: long waits with accruals drive the share values up by orders of magnitude (as far as the
         // world's curve and utilisation allow), then a wind-down, tiny deposits and close_bank probes
         1 => (prefix_strategy(), 2usize..7, prop::collection::vec((any::<u16>(), 1u64..2000), 1..4), prop::collection::vec(op_strategy(), 0..6)).prop_map(|(mut p, k, tiny, tail)| {
